@@ -1,6 +1,7 @@
 #include "filemodel.hpp"
 #include <algorithm>
 #include <cstring>
+#include <cstdlib>
 
 namespace vf {
 
@@ -151,7 +152,8 @@ ref::File buildFile(const std::vector<Op> &ops, FileInfo *info) {
     } else I.tags.insert("empty-analog-group");
     if (forceId) params.push_back(pInt(forceId, "USED", 0));
     // ---- custom groups and parameters ----
-    std::vector<int> groupIds = {pointId, analogId};
+    std::vector<int> groupIds = {pointId};
+    if (!emptyAnalog) groupIds.push_back(analogId);      // an empty ANALOG group must stay empty
     for (const Op &o : ops) {
         if (o.code != "fgroup") continue;
         int id = static_cast<int>(1 + absmod(o.arg(0), 127));
@@ -242,6 +244,12 @@ std::vector<uint8_t> fileBytesOf(const std::vector<Op> &ops, FileInfo *info, boo
     std::vector<uint8_t> b;
     bool haveRaw = false;
     for (const Op &o : ops) if (o.code == "bytes") { haveRaw = true; for (long long v : o.a) b.push_back(static_cast<uint8_t>(v & 0xFF)); }
+    for (const Op &o : ops) if (o.code == "vendor") {
+        static const char *names[] = {"Vicon.c3d", "Qualisys.c3d", "Optotrak.c3d"};
+        const char *repo = getenv("VERIF_REPO");
+        std::string p = std::string(repo ? repo : "/repo") + "/test/c3dFiles/" + names[static_cast<size_t>(absmod(o.arg(0), 3))];
+        if (readBytes(p, b)) { haveRaw = true; if (info) info->tags.insert(std::string("vendor:") + names[static_cast<size_t>(absmod(o.arg(0), 3))]); }
+    }
     std::vector<ref::FieldLoc> fields;
     if (!haveRaw) { ref::File f = buildFile(ops, info); b = ref::encode(f, &fields); }
     size_t dataOff = b.size();
